@@ -274,7 +274,7 @@ pub fn run(seed: u64, thorough: bool) -> u64 {
     let refused: Vec<String> = vec!["r3".into(), "r4".into(), "r9".into()];
     // 1. seeded random histories (first: their inputs are the shortest)
     let mut rng = Rng::seeded(seed, 3);
-    let rounds = if thorough { 60_000 } else { 4_000 };
+    let rounds = if thorough { 200_000 } else { 10_000 };
     for round in 0..rounds {
         let mut links = [Link::Healthy; N_EX];
         for l in links.iter_mut() { *l = match rng.below(4) { 0 => Link::Closed, 1 => Link::Missing, _ => Link::Healthy }; }
